@@ -12,6 +12,7 @@ package nd
 import (
 	"encoding/binary"
 	"fmt"
+	"os"
 	"hash/fnv"
 	"sort"
 	"strings"
@@ -193,6 +194,24 @@ type runner struct {
 	ctx  Ctx
 }
 
+// runChecked is run, but a nondeterminism error is enriched with the trace of
+// the previous execution (the one the prefix was taken from) and the partial
+// trace of this one (debugging aid, ND_KEEPALL=1).
+func (r *runner) runChecked(prefix []int, expect []Point, keep bool, prev []string) (res Result, c *Ctx) {
+	if !keepAll {
+		return r.run(prefix, expect, keep)
+	}
+	defer func() {
+		if e := recover(); e != nil {
+			if ne, ok := e.(NondetError); ok {
+				panic(NondetError{Msg: ne.Msg + "\nPREVIOUS EXECUTION:\n" + strings.Join(prev, "\n") + "\nTHIS EXECUTION SO FAR:\n" + strings.Join(r.ctx.notes, "\n")})
+			}
+			panic(e)
+		}
+	}()
+	return r.run(prefix, expect, keep)
+}
+
 // run executes the body once with the given prefix.
 func (r *runner) run(prefix []int, expect []Point, keep bool) (res Result, c *Ctx) {
 	c = &r.ctx
@@ -242,6 +261,10 @@ func next(pts []Point, floor, ceil, maxDev int) []int {
 	return nil
 }
 
+var selfCheck = os.Getenv("ND_SELFCHECK") == "1"
+var keepAll = os.Getenv("ND_KEEPALL") == "1"
+var lastNotes []string
+
 // Explore runs the body over its whole choice tree (this worker's shard of it).
 func Explore(body Body, opt Options) (st *Stats) {
 	if opt.MaxViol == 0 {
@@ -252,10 +275,11 @@ func Explore(body Body, opt Options) (st *Stats) {
 	}
 	st = newStats()
 	r := &runner{body: body, opt: opt}
+	var curVec []int
 	defer func() {
 		if e := recover(); e != nil {
 			if ne, ok := e.(NondetError); ok {
-				st.NondetErr = ne.Msg
+				st.NondetErr = fmt.Sprintf("%s (while replaying prefix %v)", ne.Msg, curVec)
 				st.Exhaustive = false
 				return
 			}
@@ -366,7 +390,27 @@ func Explore(body Body, opt Options) (st *Stats) {
 			if opt.OnExec != nil {
 				opt.OnExec(vec)
 			}
-			res, c := r.run(vec, exp, keep)
+			curVec = vec
+			if selfCheck {
+				_, c1 := r.run(vec, exp, true)
+				p1 := append([]Point(nil), c1.pts...)
+				n1 := append([]string(nil), c1.notes...)
+				_, c2 := r.run(vec, exp, true)
+				same := len(p1) == len(c2.pts)
+				for i := 0; same && i < len(p1); i++ {
+					same = p1[i] == c2.pts[i]
+				}
+				if !same {
+					panic(NondetError{Msg: fmt.Sprintf("self-check: two consecutive runs of %v differ\nFIRST:\n%s\nSECOND:\n%s", vec, strings.Join(n1, "\n"), strings.Join(c2.notes, "\n"))})
+				}
+			}
+			if keepAll {
+				keep = true
+			}
+			res, c := r.runChecked(vec, exp, keep, lastNotes)
+			if keepAll {
+				lastNotes = append(lastNotes[:0], c.notes...)
+			}
 			n++
 			if n&0xff == 0 && !opt.Deadline.IsZero() && time.Now().After(opt.Deadline) {
 				st.Exhaustive = false
